@@ -23,7 +23,7 @@ SEARCHES = {
     'C12': ['c12-search', 'c13-search', 'c08-search'],
     'C13': ['c13-search'],
     'C15': ['c15-search'],
-    'C17': ['c17-search', 'c01-search'],
+    'C17': ['c17-search', 'c01-search', 'c16-search'],
     'C02': ['c02-search'],
     'C05': ['c05-search'],
     'C09': ['c09-search'],
